@@ -1,18 +1,46 @@
 (* Entry points used by the correspondence check (checks/c15.py): run the model on a case and
-   return plain data that `Eval vm_compute` prints (numbers, lists, tuples, constructors). *)
+   return plain data that `Eval vm_compute` prints (numbers, lists, tuples, constructors).
+   Identifiers are printed as Z: a plain id i as i, a quoted id 2^31 + k as -(k+1) (printing the
+   31-bit numerals is what dominates the time of a check run otherwise). *)
 Require Import KV.Dict.Model KV.Dict.Spec.
+Require Import ZArith.
+
+Definition rz (i : N) : Z :=
+  if QBIT <=? i then (Z.opp (Z.of_N (i - QBIT)) - 1)%Z else Z.of_N i.
+Definition rk (k : key3) : Z * Z * Z := match k with (a, b, c) => (rz a, rz b, rz c) end.
+
+Inductive rout :=
+| RId (i : Z)
+| RLex (x : option lex)
+| RKey (k : option (Z * Z * Z))
+| RTerm (t : res term).
+
+Definition render_out (o : out) : rout :=
+  match o with
+  | OId i => RId (rz i)
+  | OLex x => RLex x
+  | OKey k => RKey (option_map rk k)
+  | OTerm t => RTerm t
+  end.
 
 Definition dump (s : st) :=
-  (k2i (sd s), i2k (sd s), nxt (sd s), (k2i (sq s), i2k (sq s), nxt (sq s))).
+  (map (fun p => (fst p, rz (snd p))) (k2i (sd s)),
+   map (fun p => (rz (fst p), snd p)) (i2k (sd s)),
+   rz (nxt (sd s)),
+   (map (fun p => (rk (fst p), rz (snd p))) (k2i (sq s)),
+    map (fun p => (rz (fst p), rk (snd p))) (i2k (sq s)),
+    rz (nxt (sq s)))).
 
 (* a call sequence on a fresh dictionary + quoted store: every output, then the final maps *)
 Definition seq_run (ops : list op) :=
   match run st_new ops with
-  | Ok (s, outs) => Ok (outs, dump s)
+  | Ok (s, outs) => Ok (map render_out outs, dump s)
   | Err e => Err e
   end.
 
-Definition render (l : ldata) := (lquads l, lgraphs l, lterms l, lquoted l, lseeds l).
+(* quads, graph identities and seeds of the lexical dataset; the dictionary terms and quoted terms
+   are not printed as trees (quadratic in the nesting): the check rebuilds them from `dump` *)
+Definition render (l : ldata) := (lquads l, lgraphs l, lseeds l).
 
 (* raw additions that bypass the dictionary (SparqlDatabase::add_quad, create_graph and the public
    `probability_seeds` field): used for the malformed stream (dangling ids) *)
